@@ -530,6 +530,11 @@ class StaticVal:
         self.fn = fn
 
 
+class ClassMethodVal:
+    def __init__(self, fn):
+        self.fn = fn
+
+
 class Builtin:
     def __init__(self, name, fn):
         self.name, self.fn = name, fn
